@@ -33,7 +33,7 @@ func init() {
 		Rule: "all schedules (thread interleavings, select choices, timer firings) of the real kmipserver code under scripted client connections, " +
 			"within the preemption bound given per shard; distinct = distinct (scenario, outcome) classes observed",
 		Assumptions: []string{timeAssumption, netAssumption, fifoAssumption, "a half-close is treated like a disconnect (no response required after it)"},
-		Quick:       append(shards(1, 0, 100, c08...), shards(1, 0, 100, c08two...)...),
-		Thorough:    append(append(shards(2, 0, 900, c08...), shards(1, 0, 900, c08two...)...), shards(0, 0, 900, "srv-3conn")...),
+		Quick:       append(shards(1, 0, 100, c08...), shards(0, 0, 100, c08two...)...),
+		Thorough:    append(append(shards(2, 0, 1500, c08...), shards(1, 0, 1500, c08two...)...), shards(0, 0, 1500, "srv-3conn")...),
 	}
 }
